@@ -27,6 +27,10 @@ def configs(tier):
     cfgs.append(V(kind="filtered", depth=2, W=2, accepted=stages.FILTER_5LEAVES))
     cfgs.append(V(kind="generic", depth=2, W=2, apex=(1, 1, 0)))
     cfgs.append(T(depth=1, W=2))
+    # one pyramid object counted and visited as a whole first, then restricted to a sub-pyramid and visited in parallel
+    cfgs.append(V(kind="filtered", depth=3, W=2, accepted=stages.all_but(3, [(3, 5, 2), (2, 0, 1)]), apex=(2, 2, 1), traversed_first=True))
+    cfgs.append(V(kind="filtered", depth=2, W=2, accepted=stages.FILTER_5LEAVES, apex=(1, 1, 1), traversed_first=True))
+    cfgs.append(V(kind="generic", depth=2, W=2, apex=(1, 0, 1), traversed_first=True))
     # timeouts that also fire on contention for the queue's reader lock, with data in the pipe
     cfgs.append(V(kind="generic", depth=1, W=2, contended_timeouts=True))
     cfgs.append(stages.MultiTan(nimg=3, W=2))
